@@ -149,6 +149,22 @@ impl Builder for SvgBuilder {
     }
 }
 
+/// Escapes the characters that are special inside a double-quoted XML attribute
+fn escape_attribute(value: &str) -> String {
+    let mut escaped = String::with_capacity(value.len());
+    for c in value.chars() {
+        match c {
+            '&' => escaped.push_str("&amp;"),
+            '<' => escaped.push_str("&lt;"),
+            '>' => escaped.push_str("&gt;"),
+            '"' => escaped.push_str("&quot;"),
+            '\'' => escaped.push_str("&apos;"),
+            _ => escaped.push(c),
+        }
+    }
+    escaped
+}
+
 impl SvgBuilder {
     fn image_placement(image_background_shape: ImageBackgroundShape, n: usize) -> (f64, f64) {
         use ImageBackgroundShape::{Circle, RoundedSquare, Square};
@@ -247,7 +263,7 @@ impl SvgBuilder {
             placed_coord.0 + (border_size - image_size) / 2f64,
             placed_coord.1 + (border_size - image_size) / 2f64,
             image_size,
-            image
+            escape_attribute(image)
         ));
 
         out
